@@ -51,6 +51,9 @@ fn pd(k: i64) -> PositionDerivative {
 fn cmd_of(c: &Value, conc: &Conc) -> Command {
     Command::new(pd(i(c, "k")), conc.val(&c["v"]))
 }
+fn window_ns(par: &Value, conc: &Conc) -> i64 {
+    par.get("w_ns").and_then(|x| x.as_i64()).unwrap_or_else(|| i(par, "w") * conc.tick_ns())
+}
 fn check_unit(q: &Output<Quantity, E>, want: Option<(i64, i64)>) -> Option<String> {
     if let (Ok(Some(d)), Some((m, sx))) = (q, want) {
         if !unit_is(d.value.unit, m, sx) {
@@ -136,12 +139,12 @@ fn make(kind: &str, par: &Value, conc: &Conc, cmd: Option<Command>) -> Machine {
         }
         "MA" => {
             let inp = Scripted::<f32>::new();
-            let stream = MovingAverageStream::<f32, _, E>::new(inp.getter.clone(), Time(i(par, "w") * conc.tick_ns()));
+            let stream = MovingAverageStream::<f32, _, E>::new(inp.getter.clone(), Time(window_ns(par, conc)));
             machine_f32_in!(stream, inp, |x: &MovingAverageStream<f32, _, E>| (obs_f32(x.get()), None))
         }
         "MAQ" => {
             let inp = Scripted::<Quantity>::new();
-            let stream = MovingAverageStream::<Quantity, _, E>::new(inp.getter.clone(), Time(i(par, "w") * conc.tick_ns()));
+            let stream = MovingAverageStream::<Quantity, _, E>::new(inp.getter.clone(), Time(window_ns(par, conc)));
             machine_q_in!(stream, inp, MILLIMETER_PER_SECOND, |x: &MovingAverageStream<Quantity, _, E>| {
                 let o = x.get();
                 let u = check_unit(&o, Some((1, -1)));
@@ -487,9 +490,160 @@ fn nontrivial(beh: &Value) -> bool {
     after_reset || n_present >= 2
 }
 
+
+// ------------------------------------------------------------------------------------------------
+// recorder: random histories on arbitrary floats, logged for spec/StreamsTrace.tla
+// ------------------------------------------------------------------------------------------------
+const REC_KINDS: [&str; 14] = ["PID", "CmdPID", "EWMA", "EWMAQ", "MA", "MAQ", "Integral", "Derivative", "AccToState", "VelToState", "PosToState", "F2Q", "Q2F", "Freeze"];
+
+fn out_json(o: &Obs, base: i64, tick: i64, rescale: f32) -> Value {
+    match o {
+        Obs::Err(e) => json!({"c": "err", "e": e, "t": 0, "keys": []}),
+        Obs::Absent => json!({"c": "none", "e": 0, "t": 0, "keys": []}),
+        Obs::Present { t, vals } => {
+            let d = t - base;
+            let tt = if d % tick == 0 { d / tick } else { -1 };
+            json!({"c": "some", "e": 0, "t": tt, "keys": vals.iter().map(|x| f32_key(*x * rescale)).collect::<Vec<_>>()})
+        }
+        Obs::Panic(_) => json!({"c": "panic", "e": 0, "t": 0, "keys": []}),
+    }
+}
+fn record(path: &str, seed: u64, n: usize, kinds: &[String]) {
+    use std::io::Write;
+    let mut rng = Rng::new(seed);
+    let mut f = std::io::BufWriter::new(std::fs::File::create(path).expect("create trace"));
+    let conc = Conc { base: 0, tick_pow2: 0, scale_pow2: 0 };
+    for h in 0..n {
+        let kind: &str = if kinds.is_empty() { REC_KINDS[(h + rng.below(14) as usize) % 14] } else { kinds[(h + rng.below(kinds.len() as u64) as usize) % kinds.len()].as_str() };
+        let tick: i64 = *rng.pick(&[1_000i64, 1_000_000, 1_000_000_000, 60_000_000_000]);
+        let base: i64 = rng.range(-(1 << 40), 1 << 40) / tick * tick;
+        let shift: i64 = rng.range(-(1 << 45), 1 << 45) / tick * tick;
+        let sk = rng.range(-3, 3) as i32;
+        let scale = 2f32.powi(sk);
+        let filt = matches!(kind, "EWMA" | "EWMAQ" | "MA" | "MAQ");
+        let e0 = rng.range(-4, 8) as i32;
+        // a sample value: filters stay within two binades (so that "between min and max up to rounding" is a statement about a few ulps)
+        let val = |r: &mut Rng| -> f32 { if filt { ((1.0 + r.unit()) * 2f64.powi(e0 + (r.below(2) as i32))) as f32 } else { r.float(-6, 10) } };
+        // windows from one tick (1 us .. 1 min) up to 24 hours; never more, so that window_ticks * tick cannot overflow i64
+        let w_ticks: i64 = (match rng.below(4) { 0 => 1, 1 => rng.range(2, 50), 2 => rng.range(50, 1 << 16), _ => rng.range(1 << 16, 1 << 28) }).min(86_400_000_000_000 / tick);
+        let unit = match kind { "AccToState" => json!([1, -2]), "VelToState" => json!([1, -1]), "PosToState" => json!([1, 0]), _ => json!([rng.range(-3, 3), rng.range(-3, 3)]) };
+        let cmd0 = (rng.below(3) as i64, rng.float(-4, 6));
+        let gains: Vec<Value> = (0..3).map(|_| json!({"kp": rng.float(-3, 3), "ki": rng.float(-3, 3), "kd": rng.float(-3, 3)})).collect();
+        let mkpar = |scl: f32| -> Value {
+            json!({"sp": (cmd0.1 * scl) as f64, "kp": gains[0]["kp"], "ki": gains[0]["ki"], "kd": gains[0]["kd"],
+                   "cmd": {"k": cmd0.0, "v": (cmd0.1 * scl) as f64}, "gains": gains,
+                   "s": ((rng.clone().unit() * 1000.0).round() / 1000.0), "w_ns": w_ticks * tick, "unit": unit, "x": 0})
+        };
+        let par = mkpar(1.0);
+        let par_scaled = mkpar(scale);
+        writeln!(f, "{}", json!({"k": "reset", "kind": kind, "cmdk": cmd0.0, "cmdkey": f32_key(cmd0.1), "w": w_ticks})).unwrap();
+        let mut main = make(kind, &par, &conc, None);
+        let mut cands: [Option<Machine>; 3] = [None, None, None]; // since_none, since_err, since_set
+        let mut skip = make(kind, &par, &conc, None);
+        let mut shifted = make(kind, &par, &conc, None);
+        let mut scaled = make(kind, &par_scaled, &conc, None);
+        let mut variant = match kind { "EWMA" => Some(make("EWMAQ", &par, &conc, None)), "MA" => Some(make("MAQ", &par, &conc, None)), _ => None };
+        let mut cur_cmd = (cmd0.0, cmd0.1);
+        let mut now_ticks: i64 = 0;
+        let len = 8 + rng.below(57) as usize;
+        for _ in 0..len {
+            // draw an event
+            let roll = rng.below(100);
+            let is_cmdpid = kind == "CmdPID";
+            let mut ev = if is_cmdpid && roll < 10 {
+                let (k, v) = match rng.below(3) { 0 => cur_cmd, 1 => (rng.below(3) as i64, cur_cmd.1), _ => (cur_cmd.0, rng.float(-4, 6)) };
+                json!({"c": "set", "k": k, "v": v as f64, "key": f32_key(v), "e": 0, "t": 0})
+            } else if roll < 72 {
+                let dt = if filt && rng.below(6) == 0 { 0 } else { match rng.below(3) { 0 => rng.range(1, 20), 1 => rng.range(20, 1 << 12), _ => rng.range(1 << 12, 1 << 20) } };
+                now_ticks += dt;
+                if is_cmdpid {
+                    json!({"c": "some", "v": [rng.float(-4, 6) as f64, rng.float(-4, 6) as f64, rng.float(-4, 6) as f64], "e": 0, "t": now_ticks})
+                } else {
+                    json!({"c": "some", "v": val(&mut rng) as f64, "e": 0, "t": now_ticks})
+                }
+            } else if roll < 86 {
+                json!({"c": "none", "e": 0, "t": 0})
+            } else {
+                json!({"c": "err", "e": 1 + rng.below(2), "t": 0})
+            };
+            if kind == "Freeze" {
+                let cond = match rng.below(8) { 0 => json!({"c": "err", "e": 1 + rng.below(2)}), 1 => json!({"c": "none"}), 2 | 3 | 4 => json!({"c": "true"}), _ => json!({"c": "false"}) };
+                ev = json!({"c": "fz", "cond": cond, "in": ev});
+            }
+            let inner = if kind == "Freeze" { ev["in"].clone() } else { ev.clone() };
+            let cat = s(&inner, "c").to_string();
+            let is_set = cat == "set";
+            let t_real = Time(base + now_ticks * tick);
+            let different = is_set && !(i(&inner, "k") == cur_cmd.0 && (inner["v"].as_f64().unwrap() as f32) == cur_cmd.1);
+            // restart the candidate twins exactly at the events of their class (a fresh stream fed the events from here on)
+            let fresh_cmd = Some(Command::new(pd(cur_cmd.0), cur_cmd.1));
+            if cat == "none" { cands[0] = Some(make(kind, &par, &conc, if is_cmdpid { fresh_cmd } else { None })); }
+            if cat == "err" { cands[1] = Some(make(kind, &par, &conc, if is_cmdpid { fresh_cmd } else { None })); }
+            if different { cands[2] = Some(make(kind, &par, &conc, fresh_cmd)); }
+            let scaled_ev = {
+                let mut e2 = ev.clone();
+                let tgt = if kind == "Freeze" { &mut e2["in"] } else { &mut e2 };
+                if tgt["v"].is_array() {
+                    for j in 0..3 { tgt["v"][j] = json!((tgt["v"][j].as_f64().unwrap() as f32 * scale) as f64); }
+                } else if tgt["v"].is_number() {
+                    tgt["v"] = json!((tgt["v"].as_f64().unwrap() as f32 * scale) as f64);
+                }
+                e2
+            };
+            let drive = |m: &mut Machine, e: &Value, t: Time| -> Result<NothingOrError<E>, String> {
+                let inner = if kind == "Freeze" { &e["in"] } else { e };
+                if s(inner, "c") == "set" {
+                    let c = Command::new(pd(i(inner, "k")), inner["v"].as_f64().unwrap() as f32);
+                    catch(|| (m.set)(c))
+                } else {
+                    (m.feed)(e, t, &conc);
+                    catch(|| (m.update)())
+                }
+            };
+            let r = drive(&mut main, &ev, t_real);
+            for c in cands.iter_mut().flatten() { let _ = drive(c, &ev, t_real); }
+            let skip_fed = cat != "none";
+            if skip_fed { let _ = drive(&mut skip, &ev, t_real); }
+            let _ = drive(&mut shifted, &ev, Time(t_real.0 + shift));
+            let _ = drive(&mut scaled, &scaled_ev, t_real);
+            if let Some(v) = variant.as_mut() { let _ = drive(v, &ev, t_real); }
+            if is_set { cur_cmd = (i(&inner, "k"), inner["v"].as_f64().unwrap() as f32); }
+            let get = |m: &Machine| catch(|| (m.get)()).map(|x| x.0).unwrap_or(Obs::Panic("panic".into()));
+            let o = get(&main);
+            let o2 = get(&main);
+            let cj = |c: &Option<Machine>| c.as_ref().map(|m| out_json(&get(m), base, tick, 1.0)).unwrap_or(json!({"c": "na", "e": 0, "t": 0, "keys": []}));
+            // scale factor of the output relative to the input scale: linear in the values for every kind
+            let evj = if kind == "Freeze" {
+                json!({"c": inner["c"], "e": inner["e"], "t": inner["t"], "cond": ev["cond"]["c"], "ce": ev["cond"].get("e").cloned().unwrap_or(json!(0))})
+            } else if is_set {
+                json!({"c": "set", "e": 0, "t": 0, "k": inner["k"], "key": inner["key"]})
+            } else {
+                json!({"c": inner["c"], "e": inner["e"], "t": inner["t"]})
+            };
+            let inkey = if cat == "some" && inner["v"].is_number() { f32_key(inner["v"].as_f64().unwrap() as f32) } else { 0 };
+            writeln!(f, "{}", json!({
+                "k": "ev", "ev": evj, "inkey": inkey, "ret": ret_json(&r), "out": out_json(&o, base, tick, 1.0), "get2": out_json(&o2, base, tick, 1.0),
+                "since_none": cj(&cands[0]), "since_err": cj(&cands[1]), "since_set": cj(&cands[2]),
+                "skip": out_json(&get(&skip), base, tick, 1.0),
+                "shift": out_json(&get(&shifted), base + shift, tick, 1.0),
+                "scale": out_json(&get(&scaled), base, tick, 1.0 / scale),
+                "variant": variant.as_ref().map(|m| out_json(&get(m), base, tick, 1.0)).unwrap_or(json!({"c": "na", "e": 0, "t": 0, "keys": []})),
+            })).unwrap();
+            if r.is_err() { break; }
+        }
+    }
+    f.flush().unwrap();
+}
+
 fn main() {
     silence_panics();
     let args: Vec<String> = std::env::args().collect();
+    if args.len() >= 5 && args[1] == "record" {
+        let kinds: Vec<String> = args.get(5).map(|k| k.split(',').map(|x| x.to_string()).collect()).unwrap_or_default();
+        record(&args[2], args[3].parse().unwrap_or(1), args[4].parse().unwrap_or(100), &kinds);
+        println!("SUMMARY {}", json!({"recorded": true}));
+        return;
+    }
     if args.len() < 4 || args[1] != "replay" {
         eprintln!("usage: streams replay <behaviours.ndjson> <concs.json> [--only <line>]");
         std::process::exit(2);
